@@ -153,7 +153,7 @@ CHECKS["C01"] = {
         {"name": "idle", "pkg": "internal/session", "pkgname": "session", "entry": "VerifC01Idle", "files": ["zz_verif_c18.go", "zz_verif_c18b.go", "zz_verif_c01.go", "zz_verif_c01idle.go", "zz_verif_c01idle2.go"],
          "with": ["state_export", "backend_export", "verifdb"], "goroutines": True,
          "extra_overlay": {"internal/response/zz_verif_decode.go": "internal/response/zz_verif_decode.go"},
-         "params": {"quick": grid(k=[1, 2], bulk=[0]) + grid(k=[2], bulk=[1]), "thorough": grid(k=[3], bulk=[0, 1])},
+         "params": {"quick": grid(k=[1, 2, 3], bulk=[0]) + grid(k=[2], bulk=[1]), "thorough": grid(k=[4], bulk=[0]) + grid(k=[3], bulk=[1])},
          "cover": ["idle-done", "idle-update-sent"]},
     ],
     "stubs": ["state.UserInterface -> verifUser (applies updates to the originating state immediately, queues for the others)", "db.Client/Transaction -> verifMiniDB (only ClearRecentFlagInMailboxOnMessage; any other call = stub missing)", "logrus -> no-op"],
@@ -252,7 +252,7 @@ CHECKS["C02"] = {
          "params": {"quick": grid(k=[1, 2]), "thorough": grid(k=[3])},
          "cover": ["mailboxes-updated", "flags-updated", "deleted"]},
         {"name": "queue", "pkg": "async", "pkgname": "async", "entry": "VerifC02Queue", "files": ["zz_verif_c02.go"], "goroutines": True, "replay_timeout_s": 40,
-         "params": {"quick": grid(k=[2], burst=[3]), "thorough": grid(k=[3], burst=[3]) + grid(k=[2], burst=[5])},
+         "params": {"quick": grid(k=[2, 3], burst=[3]), "thorough": grid(k=[4], burst=[3]) + grid(k=[3], burst=[5])},
          "cover": ["queue-drained"]},
 {"name": "wire", "pkg": "internal/session", "pkgname": "session", "entry": "VerifC01Wire", "files": ["zz_verif_c18.go", "zz_verif_c18b.go", "zz_verif_c01.go", "zz_verif_c01idle.go", "zz_verif_c01idle2.go", "zz_verif_c01wire.go"],
          "with": ["state_export", "backend_export", "verifdb"], "goroutines": True, "concrete_time": True, "replay_timeout_s": 90,
